@@ -1,9 +1,10 @@
 (* C11 — comparison is a lawful total preorder consistent with == and hash; borrowed orders like owned.
    Antisymmetry and reflexivity are proved for ALL terms (containers included, by induction over terms), and the
-   borrowed order is proved to be the owned order; the full-strength transitivity statement is refuted on the
+   borrowed order is proved to be the owned order; equal terms compare as Equal and hash alike, for all terms (the float
+   case: equal binary64 values have equal bits or are the two zeros); the full-strength transitivity statement is refuted on the
    faithful model (recorded finding C11-intransitive) — where it holds is covered by the exhaustive pair/triple law
    check of the correspondence run. *)
-From EDP Require Import Base.Bytes Base.F64 Term.Term Gen.Ranks Order.Cmp Order.CmpFacts Order.CmpLaws Order.HashStream.
+From EDP Require Import Base.Bytes Base.F64 Term.Term Gen.Ranks Order.Cmp Order.CmpFacts Order.CmpLaws Order.HashStream Order.EqLaws.
 
 (* the two rank tables (term.rs term_type_order, borrowed.rs type_order) are the same table *)
 Theorem C11_rank_tables_agree : forall t, rank_owned t = rank_borrowed t.
@@ -67,5 +68,28 @@ Theorem C11_zero_consistent :
   teqb (TFloat 0) (TFloat 9223372036854775808) = true /\ cmp_owned (TFloat 0) (TFloat 9223372036854775808) = Eq
   /\ hash_eqb (TFloat 0) (TFloat 9223372036854775808) = true.
 Proof. repeat split; vm_compute; reflexivity. Qed.
+
+(* "terms that are structurally equal compare as equal" — for ALL terms, nested arbitrarily *)
+Theorem C11_equal_terms_compare_equal : forall a b, teqb a b = true -> cmp_owned a b = Eq.
+Proof. exact eq_implies_cmp_eq. Qed.
+
+(* "terms that are equal have equal hashes": they feed the hasher the same sequence of items — for all well-formed terms;
+   the float case rests on f64_eqb_bits (two binary64 values that are == have the same bits or are +0.0 and -0.0, which
+   the hash normalises) *)
+Theorem C11_equal_terms_hash_alike : forall a b, wf a = true -> wf b = true -> teqb a b = true -> hstream a = hstream b.
+Proof. exact eq_implies_same_hash. Qed.
+
+Theorem C11_equal_floats_same_bits_or_zeros : forall a b, a < 18446744073709551616 -> b < 18446744073709551616 ->
+  f64_eqb a b = true -> a = b \/ ((a = 0 \/ a = 9223372036854775808) /\ (b = 0 \/ b = 9223372036854775808)).
+Proof. exact f64_eqb_bits. Qed.
+
+(* the premises are met by nested terms with both zeros, a node-local pid and a plain one, inside a map inside a tuple *)
+Example C11_equal_example :
+  let p1 := TPid {| pnode := [110]; pnum := 1; pserial := 2; pcreation := 3; ploc := None |} in
+  let p2 := TPid {| pnode := [110]; pnum := 1; pserial := 2; pcreation := 3; ploc := Some [1; 2; 3] |} in
+  let a := TTuple [TMap [(TFloat 0, p1)]; TList [TInt 5]] in
+  let b := TTuple [TMap [(TFloat 9223372036854775808, p2)]; TList [TInt 5]] in
+  teqb a b = true /\ wf a = true /\ a <> b.
+Proof. cbv zeta. repeat split; try (vm_compute; reflexivity). discriminate. Qed.
 
 Check C11_antisym_across_ranks.
